@@ -26,6 +26,7 @@ def main():
     res = dict(ran=time.strftime("%Y-%m-%d %H:%M:%S"))
     try:
         pkg = os.path.join(scratch, meta.get("demo_pkg", ".") or ".")
+        os.makedirs(pkg, exist_ok=True)
         demo = os.path.join(pkg, "zz_seed_demo_test.go")
         shutil.copy(os.path.join(out, "demo_test.go"), demo)
         cmd = meta["demo_cmd"]
